@@ -8,11 +8,15 @@ import os
 import subprocess
 import sys
 
-WT = "/tmp/cat/repo"
-TGT = "/tmp/cat/target"
-os.makedirs("/tmp/cat", exist_ok=True)
+BASE = os.environ.get("CAT_DIR", "/tmp/cat")
+WT = BASE + "/repo"
+TGT = BASE + "/target"
+OUTJ = os.environ.get("CAT_OUT", "/verif/seeded/catalogue.json")
+os.makedirs(BASE, exist_ok=True)
 if not os.path.exists(WT):
     subprocess.run(["git", "-C", "/repo", "worktree", "add", "-q", "--detach", WT, "HEAD"], check=True)
+head = subprocess.run(["git", "-C", "/repo", "rev-parse", "HEAD"], capture_output=True, text=True).stdout.strip()
+subprocess.run(["git", "-C", WT, "checkout", "-q", "--detach", head], check=True)
 env = dict(os.environ, VX_REPO=WT, VX_TARGET=TGT)
 res = {}
 only = sys.argv[1:]
@@ -28,6 +32,7 @@ for d in sorted(glob.glob("/verif/seeded/*/")):
     else:
         checks = REVERTS[key[:9]]
     subprocess.run(["git", "-C", WT, "checkout", "--", "."], check=True)
+    subprocess.run(["git", "-C", WT, "clean", "-fdq"], check=True)
     r = subprocess.run(["git", "-C", WT, "apply", patch])
     if r.returncode != 0:
         res[key] = {"error": "patch does not apply"}
@@ -40,10 +45,10 @@ for d in sorted(glob.glob("/verif/seeded/*/")):
         print(key, c, r.returncode, first[:110], flush=True)
     res[key] = out
     subprocess.run(["git", "-C", WT, "checkout", "--", "."], check=True)
-if only and os.path.exists("/verif/seeded/catalogue.json"):
-    old = json.load(open("/verif/seeded/catalogue.json"))
+if only and os.path.exists(OUTJ):
+    old = json.load(open(OUTJ))
     old.update(res)
     res = old
-json.dump(res, open("/verif/seeded/catalogue.json", "w"), indent=1, sort_keys=True)
+json.dump(res, open(OUTJ, "w"), indent=1, sort_keys=True)
 missed = [(k, c) for k, v in res.items() for c, o in v.items() if isinstance(o, dict) and o.get("exit") != 1]
 print("MISSED:", missed)
